@@ -617,8 +617,13 @@ func (w *dw) checkStamps() {
 		}
 	}
 	ti := w.Ti
-	if ti.AutoMargin && ti.DisableAutoMargin == "" && ti.InsertChar != "" && allowed[m.W*m.H-1] {
+	if ti.AutoMargin && ti.DisableAutoMargin == "" && ti.InsertChar != "" && allowed[m.W*m.H-1] && m.W >= 2 {
+		// the neighbour used to paint the corner: the cell to its left, or
+		// the wide glyph whose second column that is
 		mark(m.W-2, m.H-1)
+		if g := now[m.W*m.H-2]; g.Hidden {
+			mark(g.X, m.H-1)
+		}
 	}
 	nochange := true
 	for _, a := range allowed {
@@ -693,8 +698,8 @@ func (w *dw) afterShow(kind string) {
 		return
 	}
 	w.M.Painted(kind == "Sync")
-	if w.racing {
-		return
+	if w.racing || w.prop == "C09" {
+		return // C09 runs judge the syntax of the stream only
 	}
 	if w.corrupted && kind != "Sync" {
 		return
@@ -865,6 +870,9 @@ func runDraw(t *rapid.T, prop string) {
 	if prop == "C13" {
 		cfg.W, cfg.H = rapid.IntRange(2, 10).Draw(t, "w13"), rapid.IntRange(1, 5).Draw(t, "h13")
 	}
+	if prop == "C09" {
+		cfg.Locale = rapid.SampledFrom([]string{"", "", "en_US.ISO8859-1", "en_US.KOI8-R", "C"}).Draw(t, "locale09")
+	}
 	ops := drawOps(t, cfg.W, cfg.H, prop != "C13" || true)
 	ch := hx.DrawChooser(t, 100)
 	hx.Arm(prop)
@@ -874,6 +882,11 @@ func runDraw(t *rapid.T, prop string) {
 		t.Fatalf("HARNESS: %v", err)
 	}
 	w.ops = ops
+	if cfg.Locale != "" {
+		w.charset = charsetOfLocale(cfg.Locale)
+		w.T = vtFor(w)
+		w.T.Corrupt(3)
+	}
 	s := w.S
 	s.Spawn("app", w.appActor)
 	s.Spawn("poller", func() {
